@@ -72,7 +72,9 @@ Definition rcode_tbl : list (list Z * Z) :=
    ([66;65;68;77;79;68;69], 19); ([66;65;68;78;65;77;69], 20); ([66;65;68;65;76;71], 21); ([66;65;68;84;82;85;78;67], 22);
    ([66;65;68;67;79;79;75;73;69], 23)].
 Definition class_tbl : list (list Z * Z) :=
-  [([73;78], 1); ([67;72], 3); ([72;83], 4); ([78;79;78;69], 254); ([65;78;89], 255)].
+  [([73;78], 1); ([67;72], 3); ([72;83], 4); ([78;79;78;69], 254); ([65;78;89], 255);
+   (* the aliases of dns.rdataclass.RdataClass *)
+   ([82;69;83;69;82;86;69;68;48], 0); ([73;78;84;69;82;78;69;84], 1); ([67;72;65;79;83], 3); ([72;69;83;73;79;68], 4)].
 (* the type mnemonics the executable instance knows (the correspondence only uses these) *)
 Definition type_tbl : list (list Z * Z) :=
   [([65], 1); ([78;83], 2); ([67;78;65;77;69], 5); ([83;79;65], 6); ([80;84;82], 12); ([77;88], 15); ([84;88;84], 16);
@@ -357,7 +359,11 @@ Definition in_only (rdtype : Z) : bool :=
   existsb (Z.eqb rdtype) [1; 28; 42; 49; 65; 45; 36; 35; 22; 23; 26; 33; 64; 11].
 
 Definition per_type_run (pctx : RdTextM.pctx) (rdclass rdtype : Z) (st : T.tstate) : res (unit * T.tstate) :=
-  match (if negb (rdclass =? 1) && in_only rdtype then None else RdTextM.schema_of rdtype) with
+  match (if rdclass =? 1 then RdTextM.schema_of rdtype
+         (* a type implemented under dns/rdtypes/IN only: in another class the class-specific module
+            if there is one (CH A: C05's key rdclass * 65536 + rdtype), else GenericRdata *)
+         else if in_only rdtype then (if rdclass =? 0 then None else RdTextM.schema_of (rdclass * 65536 + rdtype))
+         else RdTextM.schema_of rdtype) with
   | Some fs => do r <- RdTextM.class_from_text pctx fs (RdTextM.schema_chk rdtype) st; Ok (tt, snd r)
   | None => do r <- T.generic_from_text st; Ok (tt, snd r)
   end.
